@@ -1,0 +1,133 @@
+//! verification-only shim around the synchronisation primitives used by the
+//! response sink, the progress bars and the prediction cache. it only exists when
+//! the crate is compiled with `--cfg routee_compass_verif`; regular builds never
+//! see it. every `lock`, guard drop, `write` and `flush` reports an [`Event`] to an
+//! optional process-global hook before it is carried out, which lets an external
+//! schedule explorer decide which thread performs its next visible step. with no
+//! hook installed the wrappers behave exactly like the std types they wrap.
+#![cfg(routee_compass_verif)]
+
+use std::io::Write;
+use std::ops::{Deref, DerefMut};
+use std::sync::{Arc, LockResult, PoisonError, RwLock};
+
+/// a visible step of a thread. the `usize` identifies the primitive (its address).
+#[derive(Clone, Copy, Debug, PartialEq, Eq, Hash)]
+pub enum Event {
+    /// about to acquire the mutex (reported before blocking on it)
+    Lock(usize),
+    /// the mutex guard has just been released
+    Unlock(usize),
+    /// about to issue one `write` call on the file
+    Write(usize),
+    /// about to issue one `flush` call on the file
+    Flush(usize),
+}
+
+pub type Hook = dyn Fn(Event) + Send + Sync;
+
+static HOOK: RwLock<Option<Arc<Hook>>> = RwLock::new(None);
+
+/// installs (or, with `None`, removes) the process-global hook.
+pub fn set_hook(hook: Option<Arc<Hook>>) {
+    let mut slot = HOOK.write().unwrap_or_else(|e| e.into_inner());
+    *slot = hook;
+}
+
+fn fire(event: Event) {
+    let hook = {
+        let slot = HOOK.read().unwrap_or_else(|e| e.into_inner());
+        slot.clone()
+    };
+    if let Some(h) = hook {
+        h(event)
+    }
+}
+
+/// drop-in for `std::sync::Mutex` which reports `Lock`/`Unlock` events.
+#[derive(Debug, Default)]
+pub struct Mutex<T>(std::sync::Mutex<T>);
+
+impl<T> Mutex<T> {
+    pub fn new(t: T) -> Mutex<T> {
+        Mutex(std::sync::Mutex::new(t))
+    }
+
+    fn id(&self) -> usize {
+        self as *const Mutex<T> as *const u8 as usize
+    }
+
+    pub fn lock(&self) -> LockResult<MutexGuard<'_, T>> {
+        let id = self.id();
+        fire(Event::Lock(id));
+        match self.0.lock() {
+            Ok(inner) => Ok(MutexGuard {
+                inner: Some(inner),
+                id,
+            }),
+            Err(poisoned) => Err(PoisonError::new(MutexGuard {
+                inner: Some(poisoned.into_inner()),
+                id,
+            })),
+        }
+    }
+}
+
+pub struct MutexGuard<'a, T> {
+    inner: Option<std::sync::MutexGuard<'a, T>>,
+    id: usize,
+}
+
+impl<T> Deref for MutexGuard<'_, T> {
+    type Target = T;
+    fn deref(&self) -> &T {
+        match &self.inner {
+            Some(g) => g,
+            None => unreachable!("guard is only emptied while dropping"),
+        }
+    }
+}
+
+impl<T> DerefMut for MutexGuard<'_, T> {
+    fn deref_mut(&mut self) -> &mut T {
+        match &mut self.inner {
+            Some(g) => g,
+            None => unreachable!("guard is only emptied while dropping"),
+        }
+    }
+}
+
+impl<T> Drop for MutexGuard<'_, T> {
+    fn drop(&mut self) {
+        drop(self.inner.take());
+        fire(Event::Unlock(self.id));
+    }
+}
+
+/// drop-in for an output `std::fs::File` which reports `Write`/`Flush` events.
+#[derive(Debug)]
+pub struct File(std::fs::File);
+
+impl File {
+    fn id(&self) -> usize {
+        self as *const File as *const u8 as usize
+    }
+}
+
+impl From<std::fs::File> for File {
+    fn from(f: std::fs::File) -> File {
+        File(f)
+    }
+}
+
+impl Write for File {
+    fn write(&mut self, buf: &[u8]) -> std::io::Result<usize> {
+        fire(Event::Write(self.id()));
+        self.0.write(buf)
+    }
+
+    fn flush(&mut self) -> std::io::Result<()> {
+        fire(Event::Flush(self.id()));
+        self.0.flush()
+    }
+}
